@@ -74,7 +74,7 @@ def c02_cases(tier, seed):
             cases.append(finish(steps, t))
     # matmul: sizes x flags x additive forms x leading patterns x tracked subsets
     space = FS.c05_space()
-    for (da, ta, db, tb, dc) in rnd.sample(space, 6000 if thorough else 500):
+    for (da, ta, db, tb, dc) in rnd.sample(space, 6000 if thorough else 350):
         if dc is not None and dc[-1] != (db[-2] if tb else db[-1]):
             continue       # refused additive terms belong to C05
         if dc is not None and len(dc) == 2 and dc[0] not in (1, da[-1] if ta else da[-2]):
@@ -98,7 +98,7 @@ def c02_cases(tier, seed):
                             [op("matmul", [1, 2], 10, ta=False, tb=False)], [1]))
     # conv: overlapping / non-overlapping / non-dividing strides, batches, both operands
     cspace = [p for p in FS.c06_space() if p[2] <= 4 and p[3] <= 4] if not thorough else FS.c06_space()
-    for p in rnd.sample(cspace, 3000 if thorough else 400):
+    for p in rnd.sample(cspace, 3000 if thorough else 280):
         batch, depth, ir, ic, cnt, fr, fc, sr, sc_ = p
         od = batch + [cnt, (ir - fr) // sr + 1, (ic - fc) // sc_ + 1]
         trk = rnd.choice(subsets(2))
@@ -942,6 +942,6 @@ def rank1_matmul_cases(tier, seed):
                                 st[-1] = op("matmul", [1, 2] + ([3] if dc else []), 10, ta=ta, tb=tb)
                                 st.append(backward(10, seed_tensor(od, k0=k + c)))
                                 cases.append(st)
-    if tier != "thorough" and len(cases) > 1200:
-        cases = rnd.sample(cases, 1200)
+    if tier != "thorough" and len(cases) > 700:
+        cases = rnd.sample(cases, 700)
     return cases
